@@ -182,6 +182,12 @@ def step_clauses(inputs=("x",), witness=None, root=None, may_return_input=False,
         w = witness(E, v, o, ds) if witness is not None else ds[0]
         if w is None:
             return False
+        if True:
+            # guard: the hypothesis of the clause (WF of the inputs, admissible arguments) must be satisfiable on this path, together
+            # with everything proved so far -- otherwise the implication below would hold vacuously
+            from pyvc.engine import Oblig
+
+            E.covers.append(Oblig(f"{E.prop}/{E.cur_contract.short}/cover/step-hypothesis-reachable", list(E.pc) + hyp, z3.BoolVal(False), "cover", getattr(E, "variant", "")))
         return z3.Implies(z3.And(*hyp), wf(y, w, root(E, v, o) if root is not None else None))
 
     def fresh_or_input(E, v, o):
@@ -300,3 +306,32 @@ def finalize(R, prop):
     # ---- geometry (C12): ids and parents are never written, the input's depth witness serves the result
     for nm in ("AffineTransform.__call__", "AffineTransform.apply", "TranslateOrigin.transform", "TranslateOrigin.__call__"):
         extend(f"{GEO}:{nm}", "C12")
+
+    # ---- sort_tree (C05): the result's depth witness is the input's own (C05's precondition ghost depth5, over rows) read through the
+    # returned index array sigma (new id -> old row); C05's postcondition gives sigma(0) = root row, sigma(pid'[k]) = parent row of sigma(k)
+    def sorted_witness(E, v, o, ds):
+        from contracts.C05 import depth5
+
+        calls = [kw for nm, kw in E.call_log if nm == "sort_nodes_impl"]
+        if len(calls) != 1:
+            return None
+        sigma = calls[0]["__result__"][1]
+        return lambda k: depth5(z3.Select(sigma.arr, k))
+
+    extend(f"{UT}:sort_tree", "C05", inputs=("tree",), witness=sorted_witness)
+
+    # ---- to_subtree (C06): admissible removals do not list the root (otherwise nothing, or a forest, is left: outside WF).  The result's
+    # depth witness is the input's read through the mapping (new id -> old id) that to_sub_topology returned
+    def sub_witness(E, v, o, ds):
+        calls = [kw for nm, kw in E.call_log if nm == "to_sub_topology"]
+        if len(calls) != 1:
+            return None
+        mapping = calls[0]["__result__"][1]
+        return lambda k: ds[0](z3.Select(mapping.arr, k))
+
+    def root_not_removed(E, v, o):
+        rem = o["removals"]
+        j = z3.Int(fresh_name("j"))
+        return z3.ForAll([j], z3.Implies(z3.And(j >= 0, j < zint(rem.n)), z3.Select(rem.cols[0], j) != 0))
+
+    extend(f"{UT}:to_subtree", "C06", inputs=("swc_like",), witness=sub_witness, admissible=root_not_removed)
